@@ -215,7 +215,8 @@ func runC09(r *fw.Runner) {
 			histStackFactory = func(p protocol.Protocol) *sut.Stack {
 				return sut.NewStack(p, operationparser.WithAnchorTimeValidator(rv))
 			}
-			defer func() { histStackFactory = old }()
+			histNoRequestParse = true
+			defer func() { histStackFactory, histNoRequestParse = old, false }()
 			grid := c09Grid(600)
 			for i := 0; i < 40; i++ {
 				g := grid[c.Rng.Intn(len(grid))]
